@@ -53,7 +53,7 @@ def _events(args):
     resp = rng.choice(["y", "y", "f", "o", "f['a']", ""])
     text = rows.gen_text_formula(rng, groups=True, rich=rng.random() < 0.5)
     text = (resp + " ~ " if resp else "") + text.split("~", 1)[1].strip()
-    ns = {"KL": sorted(set(w.cols["k"]["v"]))}
+    ns = rows.namespace(w, rng)
     out = []
     st, dm = design.build(text, w.df, extra_namespace=ns)
     if st != "ok":
